@@ -2229,8 +2229,8 @@ Lemma names_records_bounds code items :
   forall kv, In kv items -> N.of_nat (length (fst kv)) <= reclen (numbered_name_records code items).
 Proof.
   induction items as [|kv t [IH1 IH2]]; [split; [cbn; lia|intros ? []]|].
-  cbn [numbered_name_records map]. rewrite reclen_cons. cbn [length]. unfold wr_cstring. rewrite !app_length.
-  fold (numbered_name_records code t). split; [lia|].
+  cbn [numbered_name_records map]. fold (numbered_name_records code t). rewrite reclen_cons. cbn [length].
+  unfold wr_cstring. rewrite !app_length. split; [lia|].
   intros kv' [<-|Hin]; [lia|]. specialize (IH2 kv' Hin). lia.
 Qed.
 Lemma propstring_records_bounds vals :
@@ -2238,8 +2238,8 @@ Lemma propstring_records_bounds vals :
   forall s, In s vals -> N.of_nat (length s) <= reclen (propstring_records vals).
 Proof.
   induction vals as [|v t [IH1 IH2]]; [split; [cbn; lia|intros ? []]|].
-  cbn [propstring_records map]. rewrite reclen_cons. cbn [length]. unfold wr_cstring. rewrite !app_length.
-  fold (propstring_records t). split; [lia|].
+  cbn [propstring_records map]. fold (propstring_records t). rewrite reclen_cons. cbn [length].
+  unfold wr_cstring. rewrite !app_length. split; [lia|].
   intros s [<-|Hin]; [lia|]. specialize (IH2 s Hin). lia.
 Qed.
 Lemma cellnames_records_bound cfg cells offs : forall l st,
@@ -2263,7 +2263,7 @@ Qed.
 Lemma cell_offset_of_bound cells offs name B : Forall (fun o => o <= B) offs -> cell_offset_of cells offs name <= B.
 Proof.
   intros H. unfold cell_offset_of. destruct (cell_index cells name) as [i|]; [|lia].
-  destruct (nth_in_or_default (N.to_nat i) offs 0) as [Hin|->]; [|lia].
+  destruct (nth_in_or_default (N.to_nat i) offs 0) as [Hin|E0]; [|rewrite E0; lia].
   rewrite Forall_forall in H. apply H. exact Hin.
 Qed.
 
@@ -2272,7 +2272,7 @@ Lemma lookup_in (tab : table) k v : NoDup (map fst tab) -> In (k, v) tab -> look
 Proof.
   induction tab as [|[a b] t IH]; intros Hnd Hin; [destruct Hin|]. cbn [lookup map fst] in *.
   inversion Hnd as [|? ? Hn Hnd']; subst. destruct Hin as [E|Hin].
-  - injection E as -> ->. rewrite N.eqb_refl. reflexivity.
+  - injection E as E1 E2. subst a b. rewrite N.eqb_refl. reflexivity.
   - destruct (a =? k) eqn:Ea; [|apply IH; assumption].
     apply N.eqb_eq in Ea. subst a. exfalso. apply Hn. apply (in_map fst) in Hin. exact Hin.
 Qed.
@@ -2299,3 +2299,163 @@ Lemma items_values_nodup items keys : Permutation items (enum_from 0 keys) -> No
 Proof.
   intros HP. apply (Permutation_NoDup (l := map snd (enum_from 0 keys))); [apply Permutation_map; symmetry; exact HP|apply enum_snd_nodup].
 Qed.
+
+(* ---- the properties given with the CELLNAME records *)
+Lemma cnprops_rev (l : list (N * prop)) k : cn_props_of (rev l) k = rev (cn_props_of l k).
+Proof.
+  unfold cn_props_of. induction l as [|a t IH]; [reflexivity|].
+  cbn [rev]. rewrite filter_app, map_app, IH. cbn [filter]. destruct (fst a =? k); cbn [map rev app]; [reflexivity|].
+  rewrite app_nil_r. reflexivity.
+Qed.
+Lemma cnp_filter : forall pds s j,
+  cn_props_of (cnp_list s pds) (N.of_nat (s + j)) = match nth_error pds j with Some pd => pd | None => [] end.
+Proof.
+  unfold cn_props_of. induction pds as [|pd t IH]; intros s j; [destruct j; reflexivity|].
+  cbn [cnp_list]. rewrite filter_app, map_app.
+  assert (Hblock : forall k, map snd (filter (fun kp : N * prop => fst kp =? k) (map (fun p => (N.of_nat s, p)) pd)) =
+                             if N.of_nat s =? k then pd else []).
+  { intros k. induction pd as [|p pt IHp]; [destruct (N.of_nat s =? k); reflexivity|].
+    cbn [map filter fst]. destruct (N.of_nat s =? k); cbn [map snd]; rewrite IHp; reflexivity. }
+  rewrite Hblock. destruct j as [|j'].
+  - rewrite Nat.add_0_r, N.eqb_refl. cbn [nth_error].
+    (* no later block has the key s *)
+    assert (Hnone : forall pds' s', (s < s')%nat ->
+              map snd (filter (fun kp : N * prop => fst kp =? N.of_nat s) (cnp_list s' pds')) = []).
+    { clear. induction pds' as [|pd' t' IH']; intros s' Hs; [reflexivity|].
+      cbn [cnp_list]. rewrite filter_app, map_app, IH' by lia. rewrite app_nil_r.
+      induction pd' as [|p pt IHp]; [reflexivity|]. cbn [map filter fst].
+      replace (N.of_nat s' =? N.of_nat s) with false by (symmetry; apply N.eqb_neq; lia). exact IHp. }
+    rewrite Hnone by lia. rewrite app_nil_r. reflexivity.
+  - replace (N.of_nat s =? N.of_nat (s + S j')) with false by (symmetry; apply N.eqb_neq; lia).
+    cbn [app nth_error]. replace (s + S j')%nat with (S s + j')%nat by lia. apply IH.
+Qed.
+
+(* ---- finalize looks at these fields only *)
+Lemma finalize_DS m k :
+  finalize (DS m k) =
+  (let? lp := omap (resolve_prop (k_pn k) (k_ps k)) (rev (k_lprops k)) in
+   let? cs := omap (resolve_cell (DS m k)) (rev (k_cells k)) in
+   Some (mkLayout (k_unit k) lp cs)).
+Proof. reflexivity. Qed.
+
+Lemma omap_nth {A B} (f : A -> option B) : forall l1 l2, length l1 = length l2 ->
+  (forall j a b, nth_error l1 j = Some a -> nth_error l2 j = Some b -> f a = Some b) -> omap f l1 = Some l2.
+Proof.
+  induction l1 as [|a t IH]; intros [|b t2] Hl H; try discriminate; [reflexivity|].
+  cbn [omap]. rewrite (H 0%nat a b eq_refl eq_refl). cbn [obnd].
+  rewrite (IH t2); [reflexivity|cbn [length] in Hl; lia|]. intros j a' b' Ha Hb. apply (H (S j)); assumption.
+Qed.
+Lemma Forall2_nth {A B} (P : A -> B -> Prop) l1 l2 j a b :
+  Forall2 P l1 l2 -> nth_error l1 j = Some a -> nth_error l2 j = Some b -> P a b.
+Proof.
+  intros H. revert j. induction H as [|x y l1 l2 Hxy H IH]; intros j Ha Hb; [destruct j; discriminate|].
+  destruct j as [|j]; cbn [nth_error] in *; [congruence|]. apply (IH j); assumption.
+Qed.
+
+Lemma vp_pview_elems c :
+  map vp (pview_elems c) =
+  map view_poly (cl_polys c) ++ flat_map view_path (cl_paths c) ++ map view_ref (cl_refs c) ++ map view_label (cl_labels c).
+Proof.
+  unfold pview_elems. rewrite !map_app, !map_map.
+  assert (E1 : map (fun x => vp (pview_poly x)) (cl_polys c) = map view_poly (cl_polys c)) by reflexivity.
+  assert (E3 : map (fun x => vp (pview_ref x)) (cl_refs c) = map view_ref (cl_refs c)) by reflexivity.
+  assert (E4 : map (fun x => vp (pview_label x)) (cl_labels c) = map view_label (cl_labels c)) by reflexivity.
+  assert (E2 : map vp (flat_map pview_path (cl_paths c)) = flat_map view_path (cl_paths c)).
+  { induction (cl_paths c) as [|h t IH]; [reflexivity|]. cbn [flat_map]. rewrite map_app, IH. f_equal.
+    unfold pview_path, view_path. destruct (length (ph_pts h) <? 2)%nat; [reflexivity|]. rewrite map_map. reflexivity. }
+  rewrite E1, E2, E3, E4. reflexivity.
+Qed.
+
+Lemma resolve_rcell_g m k cfg names offs KF VF TF i gc c :
+  agrees (k_cn k) names -> agrees (k_ts k) TF -> agrees (k_pn k) KF -> agrees (k_ps k) VF ->
+  cell_index names (cl_name c) = Some i -> cell_res KF VF TF names i gc c ->
+  omap (resolve_prop (k_pn k) (k_ps k)) (rev (cn_props_of (k_cnp k) i)) =
+    Some (view_props (cellname_props cfg c (cell_offset_of names offs (cl_name c)))) ->
+  resolve_cell (DS m k) (rcell_g gc) = Some (view_cell cfg names offs c).
+Proof.
+  intros HaC HaT HaK HaV Hi (Hn & Hp & Hel) Hcn.
+  unfold resolve_cell. cbn [DS d_cellnames d_propnames d_propstrings d_cn_props d_textstrings rcell_g c_name c_props c_elems].
+  rewrite Hn, Hp. cbn [resolve_nref rev omap obnd].
+  pose proof (HaC _ _ (cell_index_some names (cl_name c) i Hi)) as Hl. rewrite N2Nat.id in Hl. rewrite Hl. cbn [obnd].
+  rewrite Hcn. cbn [obnd]. rewrite rev_involutive.
+  assert (Hes : omap (fun ep : element * list prop =>
+                        let? e := resolve_elem (k_cn k) (k_ts k) (fst ep) in
+                        let? ps := omap (resolve_prop (k_pn k) (k_ps k)) (rev (snd ep)) in Some (e, ps))
+                     (map (fun ep : element * list prop => (fst ep, rev (snd ep))) (c_elems gc)) =
+                Some (map vp (pview_elems c))).
+  { induction Hel as [|gep vep geps veps H1 H2 IH]; [reflexivity|].
+    cbn [map omap fst snd]. rewrite rev_involutive.
+    destruct (gep_res_resolve (k_cn k) (k_ts k) (k_pn k) (k_ps k) KF VF TF names gep vep HaC HaT HaK HaV H1) as [E1 E2].
+    rewrite E1. cbn [obnd]. rewrite E2. cbn [obnd]. rewrite IH. reflexivity. }
+  rewrite Hes. cbn [obnd]. rewrite app_nil_r, vp_pview_elems. reflexivity.
+Qed.
+
+(* ================================================================== the statement *)
+Definition wpoly_okp (p : wpoly) : Prop := wpoly_ok p /\ wprops_ok (py_props p).
+Definition wpath_okp (h : wpath) : Prop := wpath_ok h /\ wprops_ok (ph_props h).
+Definition wref_okp (r : wref) : Prop := wref_ok r /\ wprops_ok (rf_props r).
+Definition wlabel_okp (t : wlabel) : Prop := wlabel_ok t /\ wprops_ok (lb_props t).
+Definition wcell_okp (c : wcell) : Prop :=
+  wf_str (cl_name c) /\ Forall wpoly_okp (cl_polys c) /\ Forall wpath_okp (cl_paths c) /\ Forall wref_okp (cl_refs c) /\
+  Forall wlabel_okp (cl_labels c) /\ wprops_ok (cl_props c).
+
+(* a well-formed library of the covered subset: cell names are distinct; layers, types, half widths, counts and unsigned
+   property values fit a uint64, signed values an int64; coordinates stay below 2^62 in magnitude so that every
+   difference the writer forms fits an int64; ExplicitX / ExplicitY coordinates are not negative (known finding: the
+   writer casts them to unsigned); every polygon has a vertex; and the file is shorter than 2^64 bytes *)
+Definition wlib_ok (l : wlib) : Prop :=
+  wprops_ok (li_props l) /\ NoDup (map cl_name (li_cells l)) /\ Forall wcell_okp (li_cells l) /\
+  forall cfg, N.of_nat (length (write_oas_model cfg l)) < two64.
+
+Lemma wcell_okp_ok c : wcell_okp c -> wcell_ok c.
+Proof.
+  intros (_ & H1 & H2 & H3 & H4 & _). repeat split; (eapply Forall_impl; [|eassumption]); intros a Ha; apply Ha.
+Qed.
+Lemma pview_elems_props c : wcell_okp c -> Forall (fun ep => wprops_ok (snd ep)) (pview_elems c).
+Proof.
+  intros (_ & H1 & H2 & H3 & H4 & _). unfold pview_elems. repeat apply Forall_app; repeat split.
+  - apply Forall_forall. intros ep Hin. apply in_map_iff in Hin. destruct Hin as (p & <- & Hp).
+    rewrite Forall_forall in H1. apply (H1 p Hp).
+  - apply Forall_forall. intros ep Hin. apply in_flat_map in Hin. destruct Hin as (h & Hh & Hin).
+    rewrite Forall_forall in H2. unfold pview_path in Hin. destruct (length (ph_pts h) <? 2)%nat; [destruct Hin|].
+    apply in_map_iff in Hin. destruct Hin as (el & <- & _). apply (H2 h Hh).
+  - apply Forall_forall. intros ep Hin. apply in_map_iff in Hin. destruct Hin as (p & <- & Hp).
+    rewrite Forall_forall in H3. apply (H3 p Hp).
+  - apply Forall_forall. intros ep Hin. apply in_map_iff in Hin. destruct Hin as (p & <- & Hp).
+    rewrite Forall_forall in H4. apply (H4 p Hp).
+Qed.
+
+Lemma cellname_props_ok cfg c off : wprops_ok (cl_props c) -> wf_u off -> wprops_ok (cellname_props cfg c off).
+Proof.
+  intros H Ho. unfold cellname_props. destruct (cfg_cell_offset cfg); [|exact H].
+  unfold replace_property. constructor.
+  - split; [unfold wf_str; cbn; rewrite two64_val; lia|]. split; [unfold wf_u; cbn; rewrite two64_val; lia|].
+    constructor; [exact Ho|constructor].
+  - unfold wprops_ok in *. rewrite Forall_forall in *. intros x Hx. apply filter_In in Hx. apply H. apply Hx.
+Qed.
+
+(* fields after the table phases *)
+Lemma k_after_ts_fields k items :
+  let k' := k_after_ts k items in
+  k_unit k' = k_unit k /\ k_lprops k' = k_lprops k /\ k_cells k' = k_cells k /\ k_cn k' = k_cn k /\ k_cnp k' = k_cnp k /\
+  k_ts k' = rev (map swap_kv items) ++ k_ts k /\ k_pn k' = k_pn k /\ k_ps k' = k_ps k /\ k_psn k' = k_psn k /\
+  md2 (k_md k') = md2 (k_md k) /\ md3 (k_md k') = md3 (k_md k).
+Proof. destruct items; cbn; destruct (k_md k) as [[[a b] c0] e]; repeat split; reflexivity. Qed.
+Lemma k_after_pn_fields k items :
+  let k' := k_after_pn k items in
+  k_unit k' = k_unit k /\ k_lprops k' = k_lprops k /\ k_cells k' = k_cells k /\ k_cn k' = k_cn k /\ k_cnp k' = k_cnp k /\
+  k_ts k' = k_ts k /\ k_pn k' = rev (map swap_kv items) ++ k_pn k /\ k_ps k' = k_ps k /\ k_psn k' = k_psn k /\
+  md3 (k_md k') = md3 (k_md k).
+Proof. destruct items; cbn; destruct (k_md k) as [[[a b] c0] e]; repeat split; reflexivity. Qed.
+Lemma k_after_ps_fields k s vals :
+  let k' := k_after_ps k s vals in
+  k_unit k' = k_unit k /\ k_lprops k' = k_lprops k /\ k_cells k' = k_cells k /\ k_cn k' = k_cn k /\ k_cnp k' = k_cnp k /\
+  k_ts k' = k_ts k /\ k_pn k' = k_pn k /\ k_ps k' = rev (map swap_kv (enum_from s vals)) ++ k_ps k.
+Proof. destruct vals; cbn; repeat split; reflexivity. Qed.
+Lemma k_after_cellnames_fields k s names pds :
+  let k' := k_after_cellnames k s names pds in
+  k_unit k' = k_unit k /\ k_lprops k' = k_lprops k /\ k_cells k' = k_cells k /\
+  k_cn k' = rev (map swap_kv (enum_from s names)) ++ k_cn k /\ k_cnp k' = rev (cnp_list s pds) ++ k_cnp k /\
+  k_ts k' = k_ts k /\ k_pn k' = k_pn k /\ k_ps k' = k_ps k /\ k_psn k' = k_psn k /\
+  md1 (k_md k') = md1 (k_md k) /\ md2 (k_md k') = md2 (k_md k) /\ md3 (k_md k') = md3 (k_md k).
+Proof. destruct names; cbn; destruct (k_md k) as [[[a b] c0] e]; repeat split; reflexivity. Qed.
